@@ -1025,7 +1025,8 @@ pub fn run(args: &Args, report: &Report) {
     let args2 = args.clone();
     let report2 = report.clone();
     let thorough = args.is_thorough();
-    run_shards(report, args, 16, move |shard, shard_seed| {
+    let shards: usize = args.extra.get("shards").and_then(|s| s.parse().ok()).unwrap_or(16);
+    run_shards(report, args, shards, move |shard, shard_seed| {
         for it in 0..per_shard {
             for db in DBS {
                 run_one(&args2, &report2, db, shard, shard_seed, it, steps, selftest, thorough);
@@ -1046,8 +1047,8 @@ fn finish(args: &Args, report: &Report, selftest: u32, replay: bool) {
             report.require(&format!("{db}.rejections.NewHeightIsNotSet"), t(300, 1800));
             report.require(&format!("{db}.commits.list"), t(1000, 6000));
             report.require(&format!("{db}.reopens"), t(250, 1500));
-            report.require(&format!("{db}.histories.rocksdb"), t(6, 100));
-            report.require(&format!("{db}.histories.memory"), t(40, 400));
+            report.require(&format!("{db}.histories.rocksdb"), t(6, 80));
+            report.require(&format!("{db}.histories.memory"), t(40, 300));
         }
     }
     if selftest > 0 && report.violation_count() == 0 {
